@@ -1,4 +1,5 @@
 pub mod c01;
+pub mod c03;
 pub mod c04;
 pub mod c05;
 pub mod c05e;
@@ -8,6 +9,7 @@ pub mod c09;
 pub mod c09e;
 pub mod c10;
 pub mod c10e;
+pub mod c11;
 pub mod c12;
 pub mod c13;
 pub mod c14;
@@ -32,12 +34,14 @@ pub fn level_of(prop: &str) -> &'static str {
 pub fn dispatch(prop: &str, ctx: &Ctx, rep: &mut Report) -> bool {
     match prop {
         "C01" => c01::run(ctx, rep),
+        "C03" => c03::run(ctx, rep),
         "C04" => c04::run(ctx, rep),
         "C05" => c05::run(ctx, rep),
         "C06" => c06::run(ctx, rep),
         "C07" => c07::run(ctx, rep),
         "C09" => c09::run(ctx, rep),
         "C10" => c10::run(ctx, rep),
+        "C11" => c11::run(ctx, rep),
         "C12" => c12::run(ctx, rep),
         "C13" => c13::run(ctx, rep),
         "C14" => c14::run(ctx, rep),
